@@ -451,8 +451,8 @@ static void mono_axioms(const std::string& n, const TApp& me, bool strict) {
     if (strict) { add_pc((p < zero) == (me.val < ap.val)); add_pc((p == zero) == (me.val == ap.val)); }
     else { add_pc(z3::implies(p <= zero, me.val <= ap.val)); add_pc(z3::implies(p >= zero, me.val >= ap.val)); } }
 }
-static const char* PI_LO = "3141592653589793/1000000000000000";   // < pi
-static const char* PI_HI = "3141592653589794/1000000000000000";   // > pi
+static const char* PI_LO = "314159265358979323/100000000000000000";   // < pi, > the double nearest to pi
+static const char* PI_HI = "314159265358979324/100000000000000000";   // > pi
 // link f(x)=r with g(r)=x  (inverse pair): registers the application g(r) with value x
 static void inverse_link(const std::string& g, const z3::expr& r, const Term& x) {
   auto& lst = (*tapps)[g];
@@ -487,7 +487,8 @@ static double trans_app(const std::string& n, double a) {
     add_pc((x > zero) == (r > zero)); add_pc((x == zero) == (r == zero)); mono_axioms(n, ap, true); inverse_link("tanh", r, ta); }
   else if (n == "atan") { use_axiom("atan: range (-pi/2,pi/2) with pi bracketed by 16-digit rationals, strictly increasing, odd sign, tan(atan(x))=x");
     z3::expr hi = ctx->real_val(PI_HI) / 2, lo = ctx->real_val(PI_LO) / 2; (void)lo;
-    add_pc(r > -hi && r < hi); add_pc((x > zero) == (r > zero)); add_pc((x == zero) == (r == zero)); mono_axioms(n, ap, true); inverse_link("tan", r, ta); }
+    add_pc(r > -hi && r < hi); add_pc((x > zero) == (r > zero)); add_pc((x == zero) == (r == zero)); mono_axioms(n, ap, true); inverse_link("tan", r, ta);
+    use_axiom("atan: |x|<=300 => |atan(x)|<1.5675 (atan(300)=1.567463)"); z3::expr k = ctx->real_val(300), bd = ctx->real_val("15675/10000"); add_pc(z3::implies(x <= k, r < bd)); add_pc(z3::implies(x >= -k, r > -bd)); }
   else if (n == "tan") { use_axiom("tan: on (-pi/2,pi/2) strictly increasing, odd sign, atan(tan(x))=x");
     add_pc((x > zero) == (r > zero)); add_pc((x == zero) == (r == zero)); mono_axioms(n, ap, true); inverse_link("atan", r, ta); }
   else if (n == "cosh") { use_axiom("cosh: cosh(x)>=1, cosh(x)^2*(1-tanh(x)^2)=1, cosh(-x)=cosh(x)");
